@@ -352,6 +352,7 @@ static enum DeviceStatusCode drv_open(struct Driver* d, uint64_t i, struct Devic
         s->storage = (struct Storage){ .state = DeviceState_AwaitingConfiguration, .set = sto_set, .get = sto_get, .get_meta = sto_get_meta,
                                        .start = sto_start, .append = sto_append, .stop = sto_stop, .destroy = sto_destroy,
                                        .reserve_image_shape = sto_reserve };
+        if (g_mock.sto_incomplete[i]) s->storage.reserve_image_shape = 0;   // an incomplete interface: the HAL refuses the device (and closes it once)
         *out = &s->storage.device;
     }
     (*out)->identifier.device_id = (uint8_t)i; // so that close() knows the device even if describe() never filled the identifier
